@@ -51,6 +51,10 @@
 //!    x where they stand in the list x the order of the list;
 //!  * history.fold_collision: right after the genuine object was accepted on a thread, copies whose signature,
 //!    digest value, signing time or EE key differ in two places that cancel out in a folded / truncated key.
+//!  * object.history: ONE decoded value judged two / three times in a row (on clones taken before or after the earlier steps,
+//!    after by-reference checks on its EE certificate) under every ordered pair / triple of settings: the SAME issuer key under
+//!    re-issued certificates holding other resources, instants, strict flag, callback verdict, entry point; against a newly
+//!    decoded value under that setting alone and the model (verdict, validated resources, returned content).
 //!
 //! Reference model: the condition vector itself (accept <=> all true); for
 //! coverage a bitmask over the atoms.
@@ -855,6 +859,9 @@ fn main() {
     //--- (4c') history on a new OS thread: predecessors leaving at every stage ---------------------------------------------
     history_independent(&ctx, &fx, &ees, thorough);
     fold_collisions(&ctx, &fx, &ees, thorough);
+
+    //--- (4c'') what one decoded value has seen before: same key under re-issued issuer certificates, instants, strict, callback, entry points ---
+    object_history(&ctx, &fx, thorough);
 
     //--- (4g) fields no stated condition mentions; validity x signing time x evaluation instant ------------------------------
     ignored_fields(&ctx, &fx, thorough);
@@ -3401,4 +3408,465 @@ fn fold_collisions(ctx: &Ctx, fx: &Fx, ees: &BTreeMap<(Kind, EeV), Vec<u8>>, tho
     sp.set("by_field_and_family", serde_json::json!(*fams.lock().unwrap()));
     sp.sample_str(|| "new thread: generic.valid -> copy with signature value: octets 3 and 11 both xor 0x01 (xor-fold) -> rejected on both threads".to_string());
     sp.done(true, &format!("{} copies (4 kinds x 4 fields x the changes above), each right after the genuine object on a new OS thread and alone on another", cases.len()));
+}
+
+//------------ object.history: what ONE decoded value has seen before must not matter ------------------------------------------
+// Every validating entry point consumes the object, so callers who want to judge an object more than once (a second issuer
+// certificate after a re-issuance, another evaluation instant, strict after relaxed) validate clones of one decoded value, and
+// may have called by-reference operations on the embedded EE certificate before. State kept INSIDE the decoded value (a memo
+// shared by its clones, a lazily filled field copied by `clone`) is invisible to every space that decodes anew for each
+// evaluation. The dimension that matters is what the memo is NOT keyed by: the issuer's validated resources (the same key under
+// a re-issued certificate), the evaluation instant, the strict flag, the callback's verdict, the entry point.
+
+/// Inclusive ranges, ascending, disjoint, not adjacent (IPv4 in 32-bit integers).
+type Ranges = Vec<(u128, u128)>;
+
+fn rg_subset(a: &Ranges, b: &Ranges) -> bool { a.iter().all(|&(lo, hi)| b.iter().any(|&(x, y)| x <= lo && hi <= y)) }
+fn rg_inter(a: &Ranges, b: &Ranges) -> Ranges {
+    let mut v = Vec::new();
+    for &(lo, hi) in a { for &(x, y) in b { let (l, h) = (lo.max(x), hi.min(y)); if l <= h { v.push((l, h)) } } }
+    v.sort();
+    v
+}
+/// `width` 0: AS numbers; 32 / 128: addresses, written as a prefix where the range is one.
+fn rg_show(r: &Ranges, width: u32) -> String {
+    if r.is_empty() { return "none".into() }
+    let addr = |x: u128| if width == 32 { std::net::Ipv4Addr::from(x as u32).to_string() } else { std::net::Ipv6Addr::from(x).to_string() };
+    r.iter().map(|&(a, b)| {
+        if width == 0 { return if a == b { format!("AS{a}") } else { format!("AS{a}-{b}") } }
+        let span = a ^ b;
+        if span & span.wrapping_add(1) == 0 && a & span == 0 { format!("{}/{}", addr(a), width - (128 - span.leading_zeros())) } else { format!("{}-{}", addr(a), addr(b)) }
+    }).collect::<Vec<_>>().join(",")
+}
+
+#[derive(Clone, Debug, PartialEq, Eq)]
+struct ResM { v4: Ranges, v6: Ranges, asn: Ranges }
+
+impl ResM {
+    fn show(&self) -> String { format!("v4={} v6={} as={}", rg_show(&self.v4, 32), rg_show(&self.v6, 128), rg_show(&self.asn, 0)) }
+    fn of(rc: &ResourceCert) -> ResM {
+        ResM {
+            v4: rc.v4_resources().iter().map(|b| (b.min().to_bits() >> 96, b.max().to_bits() >> 96)).collect(),
+            v6: rc.v6_resources().iter().map(|b| (b.min().to_bits(), b.max().to_bits())).collect(),
+            asn: rc.as_resources().iter().map(|b| (b.min().into_u32() as u128, b.max().into_u32() as u128)).collect(),
+        }
+    }
+}
+
+fn claim_of(r: &Ranges) -> Claim { if r.is_empty() { Claim::Missing } else { Claim::Blocks(r.clone()) } }
+
+/// One issuer certificate: DER of its trust anchor and of itself (so that a brand-new `ResourceCert` can be made at any time)
+/// and what it has been validated to hold.
+struct OhIssuer { name: &'static str, ta_der: Vec<u8>, ca_der: Vec<u8>, holds: ResM, right_key: bool }
+
+impl OhIssuer {
+    fn make(&self) -> ResourceCert {
+        let ta = rpki::repository::cert::Cert::decode(self.ta_der.as_slice()).expect("TA decodes").validate_ta_at(pki::tal(), true, pki::time(T0)).expect("TA validates");
+        rpki::repository::cert::Cert::decode(self.ca_der.as_slice()).expect("CA decodes").validate_ca_at(&ta, true, pki::time(T0)).expect("CA validates")
+    }
+}
+
+const OH_V4: (u128, u128) = (0x0a00_0000, 0x0aff_ffff);           // 10.0.0.0/8
+const OH_V4_HALF: (u128, u128) = (0x0a00_0000, 0x0a7f_ffff);      // 10.0.0.0/9
+const OH_V6: (u128, u128) = (0x2001_0db8u128 << 96, (0x2001_0db9u128 << 96) - 1);                  // 2001:db8::/32
+const OH_V6_HALF: (u128, u128) = (0x2001_0db8u128 << 96, (0x2001_0db8u128 << 96) + (1u128 << 95) - 1); // 2001:db8::/33
+const OH_AS: (u128, u128) = (64496, 64511);
+const OH_AS_HALF: (u128, u128) = (64500, 64511);
+
+fn oh_issuers(fx: &Fx) -> Vec<OhIssuer> {
+    let all = ResM { v4: vec![(0, u32::MAX as u128)], v6: vec![(0, u128::MAX)], asn: vec![(0, u32::MAX as u128)] };
+    let exact = ResM { v4: vec![OH_V4], v6: vec![OH_V6], asn: vec![OH_AS] };
+    let half = ResM { v4: vec![OH_V4_HALF], v6: vec![OH_V6_HALF], asn: vec![OH_AS_HALF] };
+    let disjoint = ResM { v4: vec![(0xc000_0200, 0xc000_02ff)], v6: vec![(0x2001_0dbau128 << 96, (0x2001_0dbbu128 << 96) - 1)], asn: vec![(1, 1)] };
+    let as_only = ResM { v4: vec![], v6: vec![], asn: vec![OH_AS] };
+    let ip_only = ResM { v4: vec![OH_V4], v6: vec![OH_V6], asn: vec![] };
+    let res_of = |m: &ResM| Res { v4: claim_of(&m.v4), v6: claim_of(&m.v6), asn: claim_of(&m.asn) };
+    let ta_der = |m: &ResM| pki::build_cert_der(&fx.s, &Spec::ta(K_TA, res_of(m)));
+    let ca_der = |key: usize, res: Res| pki::build_cert_der(&fx.s, &Spec::issued(pki::Kind::Ca, key, K_TA, fx.s.ski(K_TA), res, Overclaim::Refuse));
+    let ta_all = ta_der(&all);
+    let ta_half = ta_der(&half);
+    let inherit = ca_der(K_CA, Res { v4: Claim::Inherit, v6: Claim::Inherit, asn: Claim::Inherit });
+    let plain = |name: &'static str, m: &ResM| OhIssuer { name, ta_der: ta_all.clone(), ca_der: ca_der(K_CA, res_of(m)), holds: m.clone(), right_key: true };
+    vec![
+        plain("CA{all}", &all),
+        plain("CA'{10/8,2001:db8::/32,AS64496-64511}", &exact),
+        plain("CA'{10/9,2001:db8::/33,AS64500-64511}", &half),
+        plain("CA'{192.0.2.0/24,2001:dba::/32,AS1}", &disjoint),
+        plain("CA'{AS64496-64511}", &as_only),
+        plain("CA'{10/8,2001:db8::/32}", &ip_only),
+        OhIssuer { name: "CA'{inherit<TA{all}}", ta_der: ta_all.clone(), ca_der: inherit.clone(), holds: all.clone(), right_key: true },
+        OhIssuer { name: "CA'{inherit<TA'{10/9,2001:db8::/33,AS64500-64511}}", ta_der: ta_half, ca_der: inherit, holds: half.clone(), right_key: true },
+        OhIssuer { name: "CA2{all}", ta_der: ta_all.clone(), ca_der: ca_der(K_CA2, res_of(&all)), holds: all, right_key: false },
+    ]
+}
+
+const OH_TIMES: [(i64, &str); 3] = [(T0, "T0"), (T0 - DAY - 1, "notBefore-1s"), (FAR + 1, "notAfter+1s")];
+
+#[derive(Clone, Copy, Debug, PartialEq, Eq, PartialOrd, Ord)]
+enum OhEntry {
+    /// `validate_at(issuer, strict, t)` of `SignedObject` / `Manifest`
+    ValidateAt,
+    /// `validate(issuer, strict)` (wall clock)
+    Validate,
+    /// `process(issuer, strict, callback)` (wall clock) of `SignedObject` / `Roa` / `Aspa`
+    Process,
+    /// `object.cert().clone().validate_ee_at(issuer, strict, t)`: the embedded EE certificate alone
+    EeValidateAt,
+    /// by-reference operations on the embedded EE certificate of the decoded value itself
+    RefSignature, RefIssuerClaim, RefValidity, RefInspect,
+}
+
+impl OhEntry {
+    fn by_ref(self) -> bool { matches!(self, OhEntry::RefSignature | OhEntry::RefIssuerClaim | OhEntry::RefValidity | OhEntry::RefInspect) }
+}
+
+/// The settings of one step.
+#[derive(Clone, Copy, Debug, PartialEq, Eq, PartialOrd, Ord)]
+struct OhSet { entry: OhEntry, issuer: usize, t: usize, strict: bool, cb_ok: bool }
+
+#[derive(Clone, Debug, PartialEq, Eq)]
+enum OhObs {
+    /// accepted: the resources of the returned `ResourceCert`, the returned content, callback invocations
+    Acc(ResM, String, u32),
+    Rej(String),
+    RefOk,
+    RefErr(String),
+    Panic(String),
+}
+
+impl OhObs {
+    /// Equality as far as the property goes: verdict and everything returned; not the wording of an error.
+    fn same(&self, o: &OhObs) -> bool {
+        match (self, o) {
+            (OhObs::Acc(a, b, c), OhObs::Acc(x, y, z)) => a == x && b == y && c == z,
+            (OhObs::Rej(_), OhObs::Rej(_)) | (OhObs::RefOk, OhObs::RefOk) | (OhObs::RefErr(_), OhObs::RefErr(_)) => true,
+            _ => false,
+        }
+    }
+    fn show(&self) -> String {
+        match self {
+            OhObs::Acc(r, c, n) => format!("accepted [{}] content [{}] callback ran {n}x", r.show(), trunc(c, 60)),
+            OhObs::Rej(e) => format!("rejected ({e})"),
+            OhObs::RefOk => "Ok".into(),
+            OhObs::RefErr(e) => format!("Err ({e})"),
+            OhObs::Panic(p) => p.clone(),
+        }
+    }
+    fn class(&self) -> &'static str {
+        match self { OhObs::Acc(..) => "accepted", OhObs::Rej(_) => "rejected", OhObs::RefOk => "by-reference check: Ok", OhObs::RefErr(_) => "by-reference check: Err", OhObs::Panic(_) => "panic" }
+    }
+}
+
+#[derive(Clone)]
+enum OhObj { Roa(Roa), Aspa(Aspa), Mft(Manifest), Gen(SignedObject) }
+
+impl OhObj {
+    fn decode(kind: Kind, bytes: &[u8], strict: bool) -> Option<OhObj> {
+        let b = Bytes::copy_from_slice(bytes);
+        match kind {
+            Kind::Roa => Roa::decode(b, strict).ok().map(OhObj::Roa),
+            Kind::Aspa => Aspa::decode(b, strict).ok().map(OhObj::Aspa),
+            Kind::Mft => Manifest::decode(b, strict).ok().map(OhObj::Mft),
+            Kind::Gen => SignedObject::decode(b, strict).ok().map(OhObj::Gen),
+        }
+    }
+    fn cert(&self) -> &rpki::repository::cert::Cert {
+        match self { OhObj::Roa(o) => o.cert(), OhObj::Aspa(o) => o.cert(), OhObj::Mft(o) => o.cert(), OhObj::Gen(o) => o.cert() }
+    }
+    /// A by-reference step on this very value.
+    fn by_ref(&self, st: OhSet, issuer: &ResourceCert) -> OhObs {
+        let r = guard(|| match st.entry {
+            OhEntry::RefSignature => self.cert().verify_signature(issuer, st.strict).map_err(|e| e.to_string()),
+            OhEntry::RefIssuerClaim => self.cert().verify_issuer_claim(issuer, st.strict).map_err(|e| e.to_string()),
+            OhEntry::RefValidity => self.cert().verify_validity(pki::time(OH_TIMES[st.t].0)).map_err(|e| e.to_string()),
+            _ => self.cert().inspect_ee(st.strict).map_err(|e| e.to_string()),
+        });
+        match r { Err(p) => OhObs::Panic(p), Ok(Ok(())) => OhObs::RefOk, Ok(Err(e)) => OhObs::RefErr(e) }
+    }
+    /// A validating step; consumes the value.
+    fn consume(self, st: OhSet, issuer: &ResourceCert) -> OhObs {
+        let calls = Cell::new(0u32);
+        let t = pki::time(OH_TIMES[st.t].0);
+        let r = guard(|| -> Result<(ResourceCert, String), String> {
+            let cb = |_: &rpki::repository::cert::Cert| -> Result<(), ValidationError> {
+                calls.set(calls.get() + 1);
+                if st.cb_ok { Ok(()) } else { Err(VerificationError::new("revoked (callback)").into()) }
+            };
+            if st.entry == OhEntry::EeValidateAt {
+                return self.cert().clone().validate_ee_at(issuer, st.strict, t).map(|rc| (rc, String::new())).map_err(|e| e.to_string())
+            }
+            match (self, st.entry) {
+                (OhObj::Roa(o), _) => o.process(issuer, st.strict, cb).map(|(rc, a)| (rc, format!("asID={} {}", a.as_id(),
+                    a.iter().map(|p| format!("{}/{}-{}", p.address(), p.address_length(), p.max_length())).collect::<Vec<_>>().join(" ")))).map_err(|e| e.to_string()),
+                (OhObj::Aspa(o), _) => o.process(issuer, st.strict, cb).map(|(rc, a)| (rc, format!("customer={} providers={}", a.customer_as(),
+                    a.provider_as_set().iter().map(|p| p.to_string()).collect::<Vec<_>>().join(",")))).map_err(|e| e.to_string()),
+                (OhObj::Mft(o), e) => if e == OhEntry::Validate { o.validate(issuer, st.strict) } else { o.validate_at(issuer, st.strict, t) }
+                    .map(|(rc, c)| (rc, format!("number={} this={} next={} files={}", c.manifest_number(), c.this_update().timestamp(), c.next_update().timestamp(),
+                        c.iter().map(|f| String::from_utf8_lossy(f.file()).into_owned()).collect::<Vec<_>>().join(",")))).map_err(|e| e.to_string()),
+                (OhObj::Gen(o), OhEntry::Process) => o.process(issuer, st.strict, cb).map(|(rc, c)| (rc, format!("sha256={}", hex(&sha256(&c)[..8])))).map_err(|e| e.to_string()),
+                (OhObj::Gen(o), OhEntry::Validate) => o.validate(issuer, st.strict).map(|rc| (rc, String::new())).map_err(|e| e.to_string()),
+                (OhObj::Gen(o), _) => o.validate_at(issuer, st.strict, t).map(|rc| (rc, String::new())).map_err(|e| e.to_string()),
+            }
+        });
+        match r { Err(p) => OhObs::Panic(p), Ok(Ok((rc, c))) => OhObs::Acc(ResM::of(&rc), c, calls.get()), Ok(Err(e)) => OhObs::Rej(e) }
+    }
+}
+
+/// How the EE certificate claims its resources.
+#[derive(Clone, Copy, Debug, PartialEq, Eq)]
+enum OhClaim { Refuse, Trim, Inherit }
+
+/// One object of the space and everything the model needs to know about it.
+struct OhSubject {
+    kind: Kind,
+    label: String,
+    bytes: Vec<u8>,
+    decode_strict: bool,
+    /// the EE certificate's claims: None = extension absent; Some(empty) = inherit (only with `claim == Inherit`)
+    claim: OhClaim,
+    claimed: ResM,
+    /// which families the EE certificate mentions at all (blocks or inherit)
+    present: [bool; 3],
+    /// the subject name of the EE certificate is a UTF8String: the strict flag decides (C01's business)
+    utf8_name: bool,
+    /// ROA: address ranges of the prefixes (v4, v6); ASPA: the customer AS
+    roa_v4: Ranges, roa_v6: Ranges, customer: Option<u128>,
+}
+
+impl OhSubject {
+    /// What the property says about one setting on a fresh value: Some(Ok(resources)) accepted with these validated resources,
+    /// Some(Err(())) rejected, None = decided by the strict flag's rules for names (C01), compared differentially only.
+    fn model(&self, iss: &OhIssuer, st: OhSet) -> Option<Result<ResM, ()>> {
+        if st.strict && self.utf8_name && !matches!(st.entry, OhEntry::RefSignature | OhEntry::RefIssuerClaim | OhEntry::RefValidity) { return None }
+        let timed_ok = st.t == 0;
+        match st.entry {
+            OhEntry::RefSignature | OhEntry::RefIssuerClaim => return Some(if iss.right_key { Ok(ResM { v4: vec![], v6: vec![], asn: vec![] }) } else { Err(()) }),
+            OhEntry::RefValidity => return Some(if timed_ok { Ok(ResM { v4: vec![], v6: vec![], asn: vec![] }) } else { Err(()) }),
+            OhEntry::RefInspect => return Some(Ok(ResM { v4: vec![], v6: vec![], asn: vec![] })),
+            _ => {}
+        }
+        if !iss.right_key { return Some(Err(())) }
+        if matches!(st.entry, OhEntry::ValidateAt | OhEntry::EeValidateAt) && !timed_ok { return Some(Err(())) }
+        let fam = |i: usize, claimed: &Ranges, held: &Ranges| -> Result<Ranges, ()> {
+            if !self.present[i] { return Ok(vec![]) }
+            match self.claim {
+                OhClaim::Inherit => Ok(held.clone()),
+                OhClaim::Refuse => if rg_subset(claimed, held) { Ok(claimed.clone()) } else { Err(()) },
+                OhClaim::Trim => Ok(rg_inter(claimed, held)),
+            }
+        };
+        let res = (|| Ok(ResM { v4: fam(0, &self.claimed.v4, &iss.holds.v4)?, v6: fam(1, &self.claimed.v6, &iss.holds.v6)?, asn: fam(2, &self.claimed.asn, &iss.holds.asn)? }))();
+        let Ok(res): Result<ResM, ()> = res else { return Some(Err(())) };
+        if st.entry != OhEntry::EeValidateAt {
+            if st.entry == OhEntry::Process && !st.cb_ok { return Some(Err(())) }
+            match self.kind {
+                Kind::Roa => if !rg_subset(&self.roa_v4, &res.v4) || !rg_subset(&self.roa_v6, &res.v6) { return Some(Err(())) },
+                Kind::Aspa => {
+                    let c = self.customer.unwrap_or(0);
+                    if !rg_subset(&vec![(c, c)], &res.asn) || self.claim == OhClaim::Inherit || self.present[0] || self.present[1] { return Some(Err(())) }
+                }
+                _ => {}
+            }
+        }
+        Some(Ok(res))
+    }
+}
+
+fn oh_subjects(fx: &Fx) -> Vec<OhSubject> {
+    let none = || ResM { v4: vec![], v6: vec![], asn: vec![] };
+    let pfx = |bits: u128, len: u8, width: u8| -> (u128, u128) { let span = if len == width { 0 } else { (1u128 << (width - len)) - 1 }; (bits, bits | span) };
+    // contents: (label, eContent, v4 ranges, v6 ranges, customer)
+    let roa_a = ("10.0.0.0/8-24,10.1.2.0/24,2001:db8::/32-48", default_content(Kind::Roa), vec![pfx(0x0a00_0000, 8, 32)], vec![pfx(0x2001_0db8u128 << 96, 32, 128)], None);
+    let roa_b = ("10.1.2.0/24,2001:db8:1::/48", der::roa_content(None, 64496, Some(&[der::roa_addr_from(0x0a01_0200, 24, 32, None)]), Some(&[der::roa_addr_from((0x2001_0db8u128 << 96) | (1u128 << 80), 48, 128, None)])),
+        vec![pfx(0x0a01_0200, 24, 32)], vec![pfx((0x2001_0db8u128 << 96) | (1u128 << 80), 48, 128)], None);
+    let aspa_a = ("customer AS64496", der::aspa_content(Some(1), 64496, &[64497, 64498]), vec![], vec![], Some(64496u128));
+    let aspa_b = ("customer AS64501", der::aspa_content(Some(1), 64501, &[64497, 64498]), vec![], vec![], Some(64501u128));
+    let mft = ("2 files", default_content(Kind::Mft), vec![], vec![], None);
+    let gen_c = ("27 octets", default_content(Kind::Gen), vec![], vec![], None);
+    let ip = ResM { v4: vec![OH_V4], v6: vec![OH_V6], asn: vec![] };
+    let asn = ResM { v4: vec![], v6: vec![], asn: vec![(64496, 64496), (64500, 64503)] };
+    let both = ResM { v4: vec![OH_V4], v6: vec![OH_V6], asn: vec![OH_AS] };
+    // EE certificates: (label, claim mode, claimed, present, UTF8String subject)
+    type EeVar = (&'static str, OhClaim, ResM, [bool; 3], bool);
+    let ee_menu = |kind: Kind| -> Vec<EeVar> {
+        match kind {
+            Kind::Roa => vec![("EE refuse{10/8,2001:db8::/32}", OhClaim::Refuse, ip.clone(), [true, true, false], false),
+                              ("EE trim{10/8,2001:db8::/32}", OhClaim::Trim, ip.clone(), [true, true, false], false),
+                              ("EE inherit{v4,v6}", OhClaim::Inherit, none(), [true, true, false], false),
+                              ("EE refuse{10/8,2001:db8::/32} UTF8String subject", OhClaim::Refuse, ip.clone(), [true, true, false], true)],
+            Kind::Aspa => vec![("EE refuse{AS64496,AS64500-64503}", OhClaim::Refuse, asn.clone(), [false, false, true], false),
+                               ("EE trim{AS64496,AS64500-64503}", OhClaim::Trim, asn.clone(), [false, false, true], false),
+                               ("EE trim{AS64496,AS64500-64503} UTF8String subject", OhClaim::Trim, asn.clone(), [false, false, true], true)],
+            _ => vec![("EE inherit{v4,v6,as}", OhClaim::Inherit, none(), [true, true, true], false),
+                      ("EE refuse{10/8,2001:db8::/32,AS64496-64511}", OhClaim::Refuse, both.clone(), [true, true, true], false),
+                      ("EE trim{10/8,2001:db8::/32,AS64496-64511}", OhClaim::Trim, both.clone(), [true, true, true], false),
+                      ("EE inherit{v4,v6,as} UTF8String subject", OhClaim::Inherit, none(), [true, true, true], true)],
+        }
+    };
+    let mut out = Vec::new();
+    for kind in KINDS {
+        let contents = match kind { Kind::Roa => vec![roa_a.clone(), roa_b.clone()], Kind::Aspa => vec![aspa_a.clone(), aspa_b.clone()], Kind::Mft => vec![mft.clone()], Kind::Gen => vec![gen_c.clone()] };
+        let signed: Vec<Signed> = contents.iter().map(|c| presign(fx, kind, c.1.clone())).collect();
+        for (ei, (elabel, claim, claimed, present, utf8_name)) in ee_menu(kind).into_iter().enumerate() {
+            let mut ee = EeOpt::base(kind);
+            ee.serial = vec![0x0b, kind as u8, ei as u8];
+            ee.overclaim = if claim == OhClaim::Trim { Overclaim::Trim } else { Overclaim::Refuse };
+            let c = |i: usize, r: &Ranges| if !present[i] { Claim::Missing } else if claim == OhClaim::Inherit { Claim::Inherit } else { Claim::Blocks(r.clone()) };
+            ee.res = Res { v4: c(0, &claimed.v4), v6: c(1, &claimed.v6), asn: c(2, &claimed.asn) };
+            if utf8_name { ee.subject = Some(der::seq(&[der::set_unsorted(&[der::seq(&[der::oid(&[2, 5, 4, 3]), der::utf8("object-history")])])])) }
+            let cert = ee_custom(fx, &ee);
+            for (ci, (clabel, _, v4, v6, customer)) in contents.iter().enumerate() {
+                let bytes = wrap(fx, kind, &signed[ci], &cert);
+                for decode_strict in [true, false] {
+                    out.push(OhSubject { kind, label: format!("{} [{clabel}] {elabel}, decoded {}", kind.name(), if decode_strict { "strict" } else { "relaxed" }),
+                        bytes: bytes.clone(), decode_strict, claim, claimed: claimed.clone(), present, utf8_name, roa_v4: v4.clone(), roa_v6: v6.clone(), customer: *customer });
+                }
+            }
+        }
+    }
+    out
+}
+
+/// (validating settings, by-reference settings) of a kind; `strict` = the mode the value was decoded in.
+fn oh_settings(kind: Kind, strict: bool, n_issuers: usize) -> (Vec<OhSet>, Vec<OhSet>) {
+    let core = [0usize, 2, n_issuers - 1];
+    let set = |entry, issuer, t, flip: bool, cb_ok| OhSet { entry, issuer, t, strict: strict ^ flip, cb_ok };
+    let mut s = Vec::new();
+    if matches!(kind, Kind::Mft | Kind::Gen) {
+        for i in 0..n_issuers { s.push(set(OhEntry::ValidateAt, i, 0, false, true)) }
+        for i in core { for t in [1, 2] { s.push(set(OhEntry::ValidateAt, i, t, false, true)) } }
+        for i in [0, 2] { s.push(set(OhEntry::ValidateAt, i, 0, true, true)) }
+        for i in core { s.push(set(OhEntry::Validate, i, 0, false, true)) }
+    }
+    if kind != Kind::Mft {
+        for i in 0..n_issuers { s.push(set(OhEntry::Process, i, 0, false, true)) }
+        for i in core { s.push(set(OhEntry::Process, i, 0, false, false)) }
+        for i in [0, 2] { s.push(set(OhEntry::Process, i, 0, true, true)) }
+    }
+    for i in [0, 2, n_issuers - 2] { s.push(set(OhEntry::EeValidateAt, i, 0, false, true)) }
+    s.push(set(OhEntry::EeValidateAt, 0, 2, false, true));
+    let mut r = Vec::new();
+    for i in core { r.push(set(OhEntry::RefSignature, i, 0, false, true)) }
+    for i in [0, n_issuers - 1] { r.push(set(OhEntry::RefIssuerClaim, i, 0, false, true)) }
+    for t in 0..3 { r.push(set(OhEntry::RefValidity, 0, t, false, true)) }
+    for flip in [false, true] { r.push(set(OhEntry::RefInspect, 0, 0, flip, true)) }
+    (s, r)
+}
+
+fn oh_show(issuers: &[OhIssuer], st: OhSet) -> String {
+    let (i, m) = (issuers[st.issuer].name, if st.strict { "strict" } else { "relaxed" });
+    match st.entry {
+        OhEntry::ValidateAt => format!("validate_at({i},{m},{})", OH_TIMES[st.t].1),
+        OhEntry::Validate => format!("validate({i},{m})"),
+        OhEntry::Process => format!("process({i},{m},cb {})", if st.cb_ok { "Ok" } else { "Err" }),
+        OhEntry::EeValidateAt => format!("cert().clone().validate_ee_at({i},{m},{})", OH_TIMES[st.t].1),
+        OhEntry::RefSignature => format!("cert().verify_signature({i})"),
+        OhEntry::RefIssuerClaim => format!("cert().verify_issuer_claim({i})"),
+        OhEntry::RefValidity => format!("cert().verify_validity({})", OH_TIMES[st.t].1),
+        OhEntry::RefInspect => format!("cert().inspect_ee({m})"),
+    }
+}
+
+/// Where the steps run. By-reference steps always run on the decoded value itself.
+const OH_HANDLES: [&str; 3] = [
+    "each validating step on a clone taken right before it",
+    "each validating step on a clone taken before the first step",
+    "validating steps on a clone taken right before, the last one on the value itself",
+];
+
+fn object_history(ctx: &Ctx, fx: &Fx, thorough: bool) {
+    let sp = ctx.space("object.history",
+        "ONE decoded value (Roa, Aspa, Manifest, SignedObject; decoded strict and relaxed) judged two (thorough: three) times in a row, every ordered pair (triple) of per-step settings: entry point {validate_at, validate, process, cert().clone().validate_ee_at; and, not as the last step, the by-reference checks cert().verify_signature / verify_issuer_claim / verify_validity / inspect_ee on the decoded value itself} x issuer certificate {CA{all}: the CA holding everything; CA'{..}: the SAME key in a re-issued certificate holding exactly the object's resources / half of them / none of them / AS only / IP only / inheriting everything under a trust anchor TA{all} resp. under TA'{half} (same trust-anchor key); CA2{all}: another CA with another key} x evaluation instant {T0, before notBefore, after notAfter} x strict flag {as decoded, the other} x callback verdict {Ok, Err} (instants and callback Err with 3 issuers, the other strict flag with 2; not the full product) x where the steps run {clone taken right before each step; all clones taken before the first step; the last step on the decoded value itself}; objects: 2 ROA contents (prefixes inside / not inside the half) x EE certificate claiming its resources under refuse / under trim / inheriting / with a UTF8String subject (strict and relaxed differ), 2 ASPA customers x EE refuse / trim / UTF8String subject, manifest and generic object x EE inherit / refuse / trim / UTF8String subject; every sequence starts from a newly decoded value and newly validated issuer certificates. Oracles: every step's verdict, the validated resources of the returned certificate, the returned content and the number of callback invocations equal those of a newly decoded value under that setting alone (differential), and that one equals the model (right key, instant inside the window, per family: absent -> nothing, inherit -> the issuer's, refuse -> the claim if inside the issuer's else rejected, trim -> claim AND issuer's; ROA: every prefix inside; ASPA: customer inside, AS not inherited, no IP extension; callback Ok; the UTF8String subject under strict is C01's and compared differentially only); non-trivial = steps whose expected observation differs from that of the step before");
+    let issuers = oh_issuers(fx);
+    let subjects = oh_subjects(fx);
+    let ni = issuers.len();
+    let t = Tally::new();
+    let (evals, nontrivial, seqs_run) = (Mutex::new(0u64), Mutex::new(0u64), Mutex::new(0u64));
+    let undecided: Mutex<BTreeMap<&'static str, u64>> = Mutex::new(BTreeMap::new());
+    // fresh observations and the model
+    let fresh: Vec<(Vec<OhSet>, usize, Vec<OhObs>)> = subjects.par_iter().map(|sj| {
+        let (mut all, refs) = oh_settings(sj.kind, sj.decode_strict, ni);
+        let n_val = all.len();
+        all.extend(refs);
+        let obs: Vec<OhObs> = all.iter().map(|&st| {
+            let issuer = issuers[st.issuer].make();
+            let Some(o) = OhObj::decode(sj.kind, &sj.bytes, sj.decode_strict) else { return OhObs::Panic("does not decode".into()) };
+            if st.entry.by_ref() { o.by_ref(st, &issuer) } else { o.consume(st, &issuer) }
+        }).collect();
+        for (&st, ob) in all.iter().zip(&obs) {
+            t.add(ob.class());
+            let w = || format!("{}; newly decoded: {}", sj.label, oh_show(&issuers, st));
+            match (ob, sj.model(&issuers[st.issuer], st)) {
+                (OhObs::Panic(p), _) => fail("C02.no_panic", w(), p.clone()),
+                (o, None) => *undecided.lock().unwrap().entry(o.class()).or_insert(0) += 1,
+                (OhObs::RefOk, Some(Ok(_))) | (OhObs::RefErr(_), Some(Err(()))) | (OhObs::Rej(_), Some(Err(()))) => {}
+                (OhObs::Acc(r, _, calls), Some(Ok(m))) => {
+                    if *r != m { fail("C02.objhist.fresh.resources", w(), format!("accepted with validated resources [{}], the model says [{}]", r.show(), m.show())) }
+                    if *calls != if st.entry == OhEntry::Process { 1 } else { 0 } { fail("C02.crl.callback_called", w(), format!("accepted with {calls} callback invocations")) }
+                }
+                (o, Some(m)) => fail(if m.is_ok() { "C02.objhist.fresh.accept" } else { "C02.objhist.fresh.reject" }, w(),
+                    format!("{}; the model says {}", trunc(&o.show(), 200), match m { Ok(r) => format!("accepted with [{}]", r.show()), Err(()) => "rejected".into() })),
+            }
+        }
+        *evals.lock().unwrap() += all.len() as u64;
+        (all, n_val, obs)
+    }).collect();
+    // sequences: one job per (subject, first setting)
+    let jobs: Vec<(usize, usize)> = (0..subjects.len()).flat_map(|s| (0..fresh[s].0.len()).map(move |a| (s, a))).collect();
+    jobs.par_iter().for_each(|&(si, a)| {
+        let sj = &subjects[si];
+        let (all, n_val, fr) = (&fresh[si].0, fresh[si].1, &fresh[si].2);
+        let live: Vec<ResourceCert> = issuers.iter().map(|i| i.make()).collect();
+        let mut seqs: Vec<Vec<usize>> = Vec::new();
+        for b in 0..all.len() {
+            if b < n_val { seqs.push(vec![a, b]) }
+            if thorough { for c in 0..n_val { seqs.push(vec![a, b, c]) } }
+        }
+        let (mut ev, mut nt, mut ns) = (0u64, 0u64, 0u64);
+        let mut oc: BTreeMap<&'static str, u64> = BTreeMap::new();
+        for sq in &seqs { for (hi, handles) in OH_HANDLES.iter().enumerate() {
+            let Some(value) = OhObj::decode(sj.kind, &sj.bytes, sj.decode_strict) else { continue };
+            ns += 1;
+            let mut value = Some(value);
+            let mut early: Vec<OhObj> = if hi == 1 { sq.iter().filter(|&&x| x < n_val).map(|_| value.as_ref().unwrap().clone()).collect() } else { Vec::new() };
+            early.reverse();
+            for (pos, &x) in sq.iter().enumerate() {
+                let st = all[x];
+                let last = pos + 1 == sq.len();
+                let ob = if st.entry.by_ref() { value.as_ref().unwrap().by_ref(st, &live[st.issuer]) }
+                    else if hi == 1 { early.pop().unwrap().consume(st, &live[st.issuer]) }
+                    else if hi == 2 && last { value.take().unwrap().consume(st, &live[st.issuer]) }
+                    else { value.as_ref().unwrap().clone().consume(st, &live[st.issuer]) };
+                ev += 1;
+                *oc.entry(ob.class()).or_insert(0) += 1;
+                if pos > 0 && !fr[x].same(&fr[sq[pos - 1]]) { nt += 1 }
+                if !ob.same(&fr[x]) {
+                    let w = format!("{} | {handles} | {} (step {})", sj.label, sq.iter().map(|&y| oh_show(&issuers, all[y])).collect::<Vec<_>>().join(" -> "), pos + 1);
+                    if let OhObs::Panic(p) = &ob { fail("C02.no_panic", w, p.clone()) }
+                    else { fail("C02.objhist.independent", w, format!("step {}: {}; a newly decoded value under that setting alone: {}", pos + 1, trunc(&ob.show(), 200), trunc(&fr[x].show(), 200))) }
+                    break;
+                }
+            }
+        }}
+        *evals.lock().unwrap() += ev; *nontrivial.lock().unwrap() += nt; *seqs_run.lock().unwrap() += ns;
+        let mut g = t.oc.lock().unwrap();
+        for (k, n) in oc { *g.entry(k).or_insert(0) += n }
+    });
+    sp.evals(*evals.lock().unwrap());
+    sp.nontrivial(*nontrivial.lock().unwrap());
+    sp.merge_outcomes(&t.oc.lock().unwrap());
+    sp.set("objects", serde_json::json!(subjects.len()));
+    sp.set("issuer_certificates", serde_json::json!(issuers.iter().map(|i| i.name).collect::<Vec<_>>()));
+    sp.set("sequences", serde_json::json!(*seqs_run.lock().unwrap()));
+    sp.set("settings_per_kind", serde_json::json!(KINDS.iter().map(|&k| { let (s, r) = oh_settings(k, true, ni); format!("{}: {} validating + {} by-reference", k.name(), s.len(), r.len()) }).collect::<Vec<_>>()));
+    sp.set("fresh_observations_under_strict_with_a_UTF8String_subject_left_to_C01", serde_json::json!(*undecided.lock().unwrap()));
+    sp.set("where_the_steps_run", serde_json::json!(OH_HANDLES));
+    if let Some(si) = subjects.iter().position(|s| s.kind == Kind::Roa && s.claim == OhClaim::Trim) {
+        let (all, _, fr) = &fresh[si];
+        if let (Some(a), Some(b)) = (all.iter().position(|s| s.entry == OhEntry::Process && s.issuer == 0), all.iter().position(|s| s.entry == OhEntry::Process && s.issuer == 2)) {
+            sp.sample_str(|| format!("{} | {} -> {}: {} ; {}", subjects[si].label, oh_show(&issuers, all[a]), oh_show(&issuers, all[b]), trunc(&fr[a].show(), 160), trunc(&fr[b].show(), 160)));
+        }
+    }
+    sp.done(true, &format!("{} objects x all ordered {} of their 28-48 settings (the last one validating) x 3 ways of taking the clones; {} sequences", subjects.len(),
+        if thorough { "pairs and triples" } else { "pairs" }, *seqs_run.lock().unwrap()));
 }
